@@ -157,7 +157,10 @@ def bounded(run):
     tables = fixed_tables()
     k = 0
     while len(tables) < n:
-        if k % 10 == 0:      # more ranks than unique functions
+        if k % 50 == 7:      # more than ten ranks and enough unique functions that the ranks 2..9 and >= 10 all own some: the per-rank files carry two-digit
+            #                  rank numbers, the order in which the numeric and the name files are joined must be the rank order for both
+            t = make_table(rng, "s%d-%d" % (run.seed, k), nu=rng.choice([14, 20, 26]), P=rng.choice([11, 12, 16]))
+        elif k % 10 == 0:      # more ranks than unique functions
             t = make_table(rng, "s%d-%d" % (run.seed, k), nu=rng.choice([2, 3]), P=4)
         else:
             t = make_table(rng, "s%d-%d" % (run.seed, k))
@@ -186,7 +189,7 @@ def bounded(run):
                     "ranks, relative probabilities",
                     FUNCTION,
                     "%d seeded synthetic tables (2..12 uniques, 0..8 variants each, NaN/inf/-inf in every term, exact ties, repeated "
-                    "likelihoods, all-infinite and all-NaN tables) + %d fixed corner tables; P in {1,2,3,4} incl. more ranks than uniques; styles %s" % (
+                    "likelihoods, all-infinite and all-NaN tables) + %d fixed corner tables; P in {1,2,3,4} incl. more ranks than uniques, and 11 / 12 / 16 ranks with 14-26 uniques; styles %s" % (
                         len(tables) - len(fixed_tables()), len(fixed_tables()), dict(sorted(styles.items()))),
                     cases, distinct, nfail,
                     note="distinct = tables whose final table is non-empty; every row of every table is checked")
